@@ -1,6 +1,6 @@
 (* C12 property theorems ONLY (each closed by an already proved lemma) + assumptions. *)
-From Coq Require Import List Reals Lra Lia.
-From RV Require Import Common.Num Common.RealNum C12.Model C12.Proofs C12.ProofsR.
+From Coq Require Import String List Reals Lra Lia.
+From RV Require Import Common.Num Common.RealNum C12.Model C12.Proofs C12.ProofsR C12.Sites.
 Import ListNotations.
 Open Scope R_scope.
 
@@ -67,6 +67,27 @@ Proof. exact merc_vel_roundtrip. Qed.
 Theorem C12_mercurius_trace_com : forall ms qs na, merc_ok ms qs na -> merc_com RNum ms qs na = COM ms qs na.
 Proof. exact merc_com_is_com. Qed.
 Print Assumptions C12_mercurius_trace_vel_inverse.
+
+(* how the integrators apply them (table of call sites regenerated from the C text on every run): every one of the
+   WHFast and SABA call sites passes the SAME active/test-particle split and N = the real particles (or all particles, in the
+   kernels that exclude variational particles), every forward transformation used has its inverse used, and the
+   MERCURIUS / TRACE shift and its inverse bind N_active to the same expression *)
+Theorem C12_integrator_call_sites_use_one_split :
+  (forall s, In s Gen.C12Sites.xf_sites ->
+     (is_saba s = false -> site_na s = whfast_split /\ (site_n s = n_real \/ site_n s = n_all)) /\
+     (is_saba s = true -> site_na s = saba_split /\ site_n s = n_all)) /\
+  forallb n_all_allowed Gen.C12Sites.xf_sites = true /\ pairs_present = true /\ (30 <= length Gen.C12Sites.xf_sites)%nat /\
+  (exists a, shift_na "reb_integrator_mercurius_inertial_to_dh"%string = Some a /\
+             shift_na "reb_integrator_mercurius_dh_to_inertial"%string = Some a) /\
+  (exists a, shift_na "reb_integrator_trace_inertial_to_dh"%string = Some a /\
+             shift_na "reb_integrator_trace_dh_to_inertial"%string = Some a).
+Proof.
+  exact (conj whfast_sites_one_split_forall
+        (conj (proj1 (proj2 whfast_sites_one_split))
+        (conj (proj1 (proj2 (proj2 (proj2 whfast_sites_one_split))))
+        (conj (proj2 (proj2 (proj2 (proj2 whfast_sites_one_split)))) dh_shift_pairs_agree)))).
+Qed.
+Print Assumptions C12_integrator_call_sites_use_one_split.
 
 (* Non-vacuity: a concrete 4-body system with a zero-mass body and N_active = 3 meets every
    hypothesis used above. *)
